@@ -486,6 +486,7 @@ class Scheduler:
         if not (alive and clean):
             prev = getattr(w, "last_holder", None)
             cause = getattr(w, "last_cause", None) or "other"
+            w.keep_cause = True  # type: ignore[attr-defined]  # later reuses of this worker are the same defect
             self.violations.append(
                 (
                     ("dead-worker-reused" if not alive else f"dirty-reuse-after-{cause}"),
@@ -586,7 +587,7 @@ class Scheduler:
             try:
                 s.close()
             except Boom:
-                if w is not None:
+                if w is not None and not getattr(w, "keep_cause", False):
                     w.last_cause = causes["C"]
                 raise
 
@@ -594,7 +595,8 @@ class Scheduler:
             w = t.owned
             if w is not None:
                 w.last_holder = t.tid  # type: ignore[attr-defined]
-                w.last_cause = None  # type: ignore[attr-defined]
+                if not getattr(w, "keep_cause", False):
+                    w.last_cause = None  # type: ignore[attr-defined]
             sess: Any = None
             stream_token = 0
             streams = 0
@@ -637,7 +639,7 @@ class Scheduler:
                 self.park(t, ("use",))
             except BaseException as e:  # noqa: BLE001
                 t.outcome.append((cur, type(e).__name__))
-                if w is not None:
+                if w is not None and not getattr(w, "keep_cause", False):
                     w.last_cause = causes.get(cur, "other") if isinstance(e, Boom) else "other"  # type: ignore[attr-defined]
                 t.ops_left = 0
                 raise
